@@ -15,6 +15,7 @@ EXPLANATION = (
     "C14.S3: a decoy digest is base64_hash of a fresh generator call. C14.S4: the digest embedded for a disclosure is base64_hash over the bytes of its base64url text, base64_hash resolves to SHA-256 and URL-safe unpadded base64, "
     "and the verifier's reader side uses the same function. C14.S5: no process-global mutable state takes part in the default build. "
     "Pairwise distinctness and bit frequencies over 10^5 salts are statistical statements about runs and are not decided; ThreadRng's quality is trusted."
+    " C14.S1 is decided on the disclosure-text term (sa/dtext.py): the salt element is an argument-less generator call, drawn once by the constructor, or once per hand-over in the caller that draws it (judged in that caller\u2019s view with closures and pipelines spliced)."
 )
 ASSUMPTIONS = [
     "rand::rngs::ThreadRng is a CSPRNG (ChaCha12, OS-seeded, periodically reseeded), one generator per thread by type",
